@@ -70,6 +70,10 @@ size_t get_common_parent_path_length(const char *first, const char *second) {
   assert(*first == '/');
   assert(*first == *second);
 
+  if (!first[1] && !second[1]) {
+    return 1;
+  }
+
   for (size_t i = 1, result = 1; /*keep going*/; ++i) {
     if (is_separator(first[i]) && is_separator(second[i])) {
       result = i + 1;
